@@ -320,6 +320,27 @@ func init() {
 		flush()
 		return normStr(&Rope{atoms: out})
 	}
+	// verifHasPrefix(s, prefix): the first bytes of s are plain bytes equal to the concrete prefix
+	// (a rendered piece inside that range does not match)
+	shims["verifHasPrefix"] = func(in *Interp, fr *frame, args []value) value {
+		pre := in.concStr(args[1], "verifHasPrefix prefix")
+		if s, ok := args[0].(string); ok {
+			return in.tb.Bool(strings.HasPrefix(s, pre))
+		}
+		r := in.ropeOf(args[0])
+		if len(r.atoms) < len(pre) {
+			return in.tb.False
+		}
+		c := in.tb.True
+		for i := 0; i < len(pre); i++ {
+			a := r.atoms[i]
+			if a.op != nil {
+				return in.tb.False
+			}
+			c = in.tb.And(c, in.tb.Eq(a.t, in.tb.BV(SBV8, uint64(pre[i]))))
+		}
+		return c
+	}
 	shims["verifEventCount"] = func(in *Interp, fr *frame, args []value) value {
 		return in.intConst(int64(len(in.path.events)))
 	}
